@@ -280,3 +280,92 @@ func (p *PCT) N(kind string, n int) int {
 	}
 	return 0
 }
+
+// Stall is a mostly sequential scheduler with one long preemption: a victim
+// task (the V-th task the scheduler ever sees) is suspended when it has been
+// run J times - i.e. at its J-th yield point, a position counted in the
+// victim's OWN steps, not in global ones - and is not run again until M other
+// decisions have been taken or nothing else can run. "A goroutine is descheduled
+// between two adjacent statements while a whole refresh / update / burst of
+// other calls happens" is one draw of (V, J) here; for PCT it is one global step
+// out of the horizon, an order of magnitude less likely.
+type Stall struct {
+	R       *SM64
+	Stick   float64
+	Mix     float64
+	V, J, M int
+	seen    map[uint64]int
+	nSeen   int
+	runs    int
+	stalled bool
+	left    int
+	victim  uint64
+	cur     uint64
+}
+
+//go:norace
+func NewStall(r *SM64, maxTasks, maxYields int, stick, mix float64) *Stall {
+	return &Stall{R: r, Stick: stick, Mix: mix, V: r.IntN(maxTasks), J: 1 + r.IntN(maxYields), M: 20 + r.IntN(400), seen: map[uint64]int{}}
+}
+
+//go:norace
+func (s *Stall) Task(cands []*kern.Task) int {
+	for _, t := range cands {
+		if _, ok := s.seen[t.Key]; !ok {
+			s.seen[t.Key] = s.nSeen
+			if s.nSeen == s.V {
+				s.victim = t.Key
+			}
+			s.nSeen++
+		}
+	}
+	if s.stalled {
+		s.left--
+		if s.left <= 0 {
+			s.stalled = false
+		}
+	}
+	pick := -1
+	if s.R.Float64() < s.Stick {
+		// keep running the current task when it is still a candidate
+		for i, t := range cands {
+			if t.Key == s.cur {
+				pick = i
+			}
+		}
+	}
+	if pick < 0 {
+		pick = s.R.IntN(len(cands))
+	}
+	if s.stalled && cands[pick].Key == s.victim && len(cands) > 1 {
+		// anyone but the victim
+		o := s.R.IntN(len(cands) - 1)
+		for i := range cands {
+			if cands[i].Key == s.victim {
+				continue
+			}
+			if o == 0 {
+				pick = i
+				break
+			}
+			o--
+		}
+	}
+	if cands[pick].Key == s.victim && s.victim != 0 && !s.stalled && s.runs >= 0 {
+		s.runs++
+		if s.runs == s.J {
+			s.stalled, s.left = true, s.M
+			s.runs = -1 << 30 // once
+		}
+	}
+	s.cur = cands[pick].Key
+	return pick
+}
+
+//go:norace
+func (s *Stall) N(kind string, n int) int {
+	if s.R.Float64() < s.Mix {
+		return s.R.IntN(n)
+	}
+	return 0
+}
